@@ -549,6 +549,74 @@ Definition check_resolve (c : rcase) : bool :=
   let '(frags, labels, obs) := c in
   forallb (fun ko => opt_eqb Nat.eqb (resolve frags labels (fst ko)) (snd ko)) obs.
 
+(* ------------------------------------------------------------------ sessions on CDXMLFile objects *)
+(* What a caller can do with CDXMLFile objects of one file: look a label up on object o (through any accessor: f[label],
+   f[int], iteration, load(key=...) on a fresh object), parse the i-th drawing directly (load / load_all), EDIT IN PLACE a
+   molecule it was handed earlier (h = its allocation number; `after` = what the molecule looks like afterwards), or look
+   at such a molecule.  The state of the model: the label -> fragment cache of every object (the ONLY thing __getitem__
+   keeps) and the heap of molecules handed out.  Every lookup allocates a NEW molecule, parsed from the drawing. *)
+Inductive sev :=
+| EGet (o : nat) (key : string) (obs : res mol)
+| EParse (i : nat) (obs : res mol)
+| EEdit (h : nat) (after : mol)
+| ELook (h : nat) (obs : mol).
+Record sstate := mkS { s_caches : nat -> cache; s_heap : list mol }.
+Fixpoint set_nth {A} (n : nat) (x : A) (l : list A) : list A :=
+  match l, n with
+  | [], _ => []
+  | _ :: r, O => x :: r
+  | y :: r, S n' => y :: set_nth n' x r
+  end.
+Definition alloc (r : res mol) (hp : list mol) : list mol := match r with Ok m => hp ++ [m] | Raise => hp end.
+Definition parse_at (frags : list xfrag) (i : option nat) : res mol :=
+  match i with
+  | Some i => match nth_error frags i with Some fr => expand fr | None => Raise end
+  | None => Raise
+  end.
+(* the molecule a lookup event hands out (None: the event is not a lookup) and the state afterwards *)
+Definition sev_answer (f : string -> option nat) (parse : option nat -> res mol) (st : sstate) (e : sev) : option (res mol) :=
+  match e with
+  | EGet o k _ => Some (parse (fst (getitem f (s_caches st o) k)))
+  | EParse i _ => Some (parse (Some i))
+  | _ => None
+  end.
+Definition sev_next (f : string -> option nat) (parse : option nat -> res mol) (st : sstate) (e : sev) : sstate :=
+  match e with
+  | EGet o k _ => let '(a, c') := getitem f (s_caches st o) k in
+                  mkS (fun o' => if Nat.eqb o' o then c' else s_caches st o') (alloc (parse a) (s_heap st))
+  | EParse i _ => mkS (s_caches st) (alloc (parse (Some i)) (s_heap st))
+  | EEdit h m => mkS (s_caches st) (set_nth h m (s_heap st))
+  | ELook _ _ => st
+  end.
+(* does the observation recorded in the event agree with the model *)
+Definition sev_ok (f : string -> option nat) (parse : option nat -> res mol) (st : sstate) (e : sev) : bool :=
+  match e with
+  | EGet _ _ obs | EParse _ obs => match sev_answer f parse st e with Some a => res_eqb mol_eqb a obs | None => false end
+  | EEdit h _ => match nth_error (s_heap st) h with Some _ => true | None => false end
+  | ELook h obs => match nth_error (s_heap st) h with Some m => mol_eqb m obs | None => false end
+  end.
+Fixpoint run_session (f : string -> option nat) (parse : option nat -> res mol) (st : sstate) (evs : list sev) : bool :=
+  match evs with
+  | [] => true
+  | e :: r => sev_ok f parse st e && run_session f parse (sev_next f parse st e) r
+  end.
+Fixpoint session_answers (f : string -> option nat) (parse : option nat -> res mol) (st : sstate) (evs : list sev) : list (res mol) :=
+  match evs with
+  | [] => []
+  | e :: r => match sev_answer f parse st e with
+              | Some a => a :: session_answers f parse (sev_next f parse st e) r
+              | None => session_answers f parse (sev_next f parse st e) r
+              end
+  end.
+Definition session_end (f : string -> option nat) (parse : option nat -> res mol) (st : sstate) (evs : list sev) : sstate :=
+  fold_left (sev_next f parse) evs st.
+Definition s_init : sstate := mkS (fun _ => []) [].
+(* correspondence: the typed drawings of the file, label -> drawing, the events observed on the running reader *)
+Definition scase := (list xfrag * list (string * nat) * list sev)%type.
+Definition check_session (c : scase) : bool :=
+  let '(frags, keymap, evs) := c in
+  run_session (fun k => cache_get k keymap) (parse_at frags) s_init evs.
+
 (* ------------------------------------------------------------------ correspondence: geometry (Q instance) *)
 Local Open Scope Q_scope.
 (* planar start coordinates, the stereo steps in the order the parser takes them, the coordinates observed.
